@@ -67,6 +67,10 @@ void inst_functional(Fun_& fun)
   func_eval.set_point(trafo_data);
   auto v = func_eval.eval(test_data.phi[0]);
   (void)v;
+  // number of components of the functional's value (1 = scalar): the compile-time truth the check compares shapes with
+  static constexpr int n_comps = int(sizeof(v) / sizeof(DT));
+  volatile int c_comps = n_comps;
+  (void)c_comps;
 }
 
 // the tag values the checks decode configs with
@@ -126,6 +130,19 @@ void inst_all(Types<2>::TestSpace& test2, Types<2>::TrialSpace& trial2, Types<3>
   Fun2 fun2;
   { ForceFunctional<Fun2> f(fun2); inst_functional<ForceFunctional<Fun2>, 2>(f); }
   { LaplaceFunctional<Fun2> f(fun2); inst_functional<LaplaceFunctional<Fun2>, 2>(f); }
+  // scalar 3D and vector-valued (blocked) variants: the vector-valued overloads of the evaluators' helpers
+  typedef Analytic::Common::SineBubbleFunction<3> Fun3;
+  Fun3 fun3;
+  { ForceFunctional<Fun3> f(fun3); inst_functional<ForceFunctional<Fun3>, 3>(f); }
+  { LaplaceFunctional<Fun3> f(fun3); inst_functional<LaplaceFunctional<Fun3>, 3>(f); }
+  typedef Analytic::Common::ParProfileVector<DT> VFun2;
+  VFun2 vfun2;
+  { ForceFunctional<VFun2> f(vfun2); inst_functional<ForceFunctional<VFun2>, 2>(f); }
+  { LaplaceFunctional<VFun2> f(vfun2); inst_functional<LaplaceFunctional<VFun2>, 2>(f); }
+  typedef Analytic::Common::XYPlaneRotation<DT, 3> VFun3;
+  VFun3 vfun3(DT(1), VFun3::PointType(DT(0)));
+  { ForceFunctional<VFun3> f(vfun3); inst_functional<ForceFunctional<VFun3>, 3>(f); }
+  { LaplaceFunctional<VFun3> f(vfun3); inst_functional<LaplaceFunctional<VFun3>, 3>(f); }
 
   // ---- classic cell-loop assemblers ----------------------------------------------------------------
   typedef LAFEM::SparseMatrixCSR<DT, IT> ScalarMatrix;
@@ -170,6 +187,7 @@ void inst_all(Types<2>::TestSpace& test2, Types<2>::TrialSpace& trial2, Types<3>
   Adjacency::Graph g5(Assembly::SymbolicAssembler::assemble_graph_ext_node1(test2));
   Adjacency::Graph g6(Assembly::SymbolicAssembler::assemble_graph_ext_node2(test2, trial2));
   Adjacency::Graph g7(Assembly::SymbolicAssembler::assemble_graph_diag(test2));
+  Adjacency::Graph g8(Assembly::SymbolicAssembler::assemble_graph_2lvl(test2, trial2));   // -> assemble_graph_intermesh
   Assembly::SymbolicAssembler::assemble_matrix_std1(mat_s, test2);
   Assembly::SymbolicAssembler::assemble_matrix_std2(mat_s2, test2, trial2);
   (void)test3; (void)trial3;
